@@ -1,5 +1,6 @@
 /-
-  FIXED STATEMENTS (do not edit): the hand-over of accepted connections and their fate at shutdown.
+  FIXED STATEMENTS (do not edit): the hand-over of accepted connections and of Register / Enroll calls, and their
+  fate at shutdown, after the fix "registrations handed to an event loop that has exited are aborted".
   Every theorem here is proved in Gnet/Proofs/Handover.lean and only restated.
 -/
 import Gnet.Model.Handover
@@ -7,14 +8,13 @@ import Gnet.Proofs.Handover
 namespace Gnet.Props.Handover
 open Gnet.Handover
 
-/-- C07/C04: ownership partition. Every descriptor the acceptor created is in exactly one place:
+/-- C07/C04: ownership partition. Every descriptor the acceptor or an enrolment created is in exactly one place:
 waiting in exactly one loop's queue, registered with exactly one loop, or closed (exactly once). -/
 theorem handover_partition (s : State) (h : Reachable s) :
     (pending s ++ registered s ++ s.closed).Perm (created s) :=
   Proofs.Handover.partition s h
 
-/-- C15 (last clause) / C04: OnOpen runs at most once per descriptor, and on the loop the load
-balancer chose for it. -/
+/-- C15 (last clause) / C04: OnOpen runs at most once per descriptor, and on the loop the load balancer chose. -/
 theorem opened_on_assigned_loop (s : State) (h : Reachable s) :
     (∀ p ∈ s.opened, p ∈ s.assigned) ∧ (s.opened.map Prod.fst).Nodup ∧ s.assigned.map Prod.fst = created s :=
   Proofs.Handover.opened_assigned s h
@@ -25,64 +25,62 @@ theorem running_loop_serves (s : State) (l : Nat) (x : Loop) (hx : s.loops[l]? =
     (fd, l) ∈ (run s (List.replicate (pre.length + 1) (Step.exec l))).opened :=
   Proofs.Handover.running_loop_serves s l x hx hr pre rest fd hq hns
 
-/-- C07, the finding characterised: when everything has stopped, the descriptors the framework
-created and never closed are exactly those whose registration still sits in the queue of a loop
-that left Polling. Nothing else can leak. -/
-theorem final_unclosed_are_stranded (s : State) (h : Reachable s) (hf : Final s = true) :
-    ∀ fd, fd ∈ unclosed s ↔ fd ∈ pending s :=
-  Proofs.Handover.final_unclosed s h hf
+/-- registrations wait only in the queues of loops that are still polling -/
+theorem pending_only_on_running_loops (s : State) (h : Reachable s) (l : Nat) (x : Loop)
+    (hx : s.loops[l]? = some x) (hr : x.running = false) : pendingOf x = [] ∧ x.conns = [] :=
+  Proofs.Handover.pending_only_on_running s h l x hx hr
 
-/-- C07, the finding itself (known finding `accepted-socket-leaks-when-loop-exits-first`): such a
-final state is reachable, both through a Shutdown action on the target loop and through an
-ordinary Stop while a connection arrives. -/
-theorem leak_reachable_by_action :
-    let s := run (init 1) [.accept 0, .accept 0, .exec 0, .action 0, .postSentinels, .acceptorExit]
-    Final s = true ∧ unclosed s = [1] :=
-  Proofs.Handover.leak_by_action
+/-- C07: no descriptor leaks. When everything has stopped every descriptor the framework created has been closed,
+exactly once. -/
+theorem final_no_leak (s : State) (h : Reachable s) (hf : Final s = true) :
+    unclosed s = [] ∧ s.closed.Perm (created s) :=
+  Proofs.Handover.final_no_leak s h hf
 
-theorem leak_reachable_by_stop :
-    let s := run (init 2) [.requestStop, .postSentinels, .accept 1, .exec 0, .exec 1, .acceptorExit]
-    Final s = true ∧ unclosed s = [0] :=
-  Proofs.Handover.leak_by_stop
-
-/-- no leak when no registration is stranded: if every queue is empty of registrations in the final
-state, every created descriptor was closed exactly once. -/
-theorem no_stranded_no_leak (s : State) (h : Reachable s) (hf : Final s = true) (hp : pending s = []) :
-    s.closed.Perm (created s) :=
-  Proofs.Handover.no_stranded_no_leak s h hf hp
-
-/-- C19 (Register/Enroll deliver exactly one result per accepted call): never more than one, and only for accepted calls -/
+/-- C19: every accepted Register / Enroll call gets at most one result, only accepted calls get one, ... -/
 theorem results_at_most_once (s : State) (h : Reachable s) :
     s.results.Nodup ∧ (∀ fd ∈ s.results, fd ∈ s.enrolled) ∧ s.enrolled.Nodup :=
   Proofs.Handover.results_at_most_once s h
 
-/-- C19, the finding characterised: an accepted call is still without its result exactly when its registration is
-waiting in a queue; once everything has stopped these are the registrations stranded in the queue of a loop that left
-Polling - their callers wait forever -/
+/-- ... a call is without its result exactly while its registration waits in a queue, ... -/
 theorem unanswered_are_pending (s : State) (h : Reachable s) :
     ∀ fd, fd ∈ unanswered s ↔ (fd ∈ s.enrolled ∧ fd ∈ pending s) :=
   Proofs.Handover.unanswered_are_pending s h
 
-/-- C19, the finding itself (known finding `register-races-with-shutdown`): a Register call accepted while the
-engine is shutting down (the flag is only set at the very end) is never answered -/
-theorem register_unanswered_reachable :
-    let s := run (init 1) [.requestStop, .postSentinels, .exec 0, .enroll 0, .acceptorExit, .setFlag]
-    Final s = true ∧ s.inShutdown = true ∧ unanswered s = [0] :=
-  Proofs.Handover.register_unanswered_reachable
+/-- ... so when everything has stopped every accepted call has been answered: with a connection whose OnOpen has
+run, or with an error, in which case its descriptor has been closed and OnOpen never ran. -/
+theorem final_all_answered (s : State) (h : Reachable s) (hf : Final s = true) : unanswered s = [] :=
+  Proofs.Handover.final_all_answered s h hf
+
+theorem failed_results (s : State) (h : Reachable s) :
+    (∀ fd ∈ s.failed, fd ∈ s.results ∧ fd ∈ s.closed ∧ fd ∉ s.opened.map Prod.fst) ∧
+    (∀ fd ∈ s.results, fd ∉ s.failed → fd ∈ s.opened.map Prod.fst) :=
+  Proofs.Handover.failed_results s h
 
 /-- after the flag is set no call is accepted any more: the set of accepted calls is final -/
 theorem no_enrolment_after_flag (s : State) (hs : s.inShutdown = true) (l : Nat) : step s (.enroll l) = s :=
   Proofs.Handover.no_enrolment_after_flag s hs l
 
--- non-vacuity: a run in which connections are handed over, served, closed by peers and by shutdown
+-- non-vacuity: the histories in which the unfixed code leaked a descriptor / never answered a call
+example :
+    let s := run (init 1) [.accept 0, .accept 0, .exec 0, .action 0, .postSentinels, .acceptorExit]
+    Final s = true ∧ unclosed s = [] ∧ s.closed = [0, 1] ∧ s.opened = [(0, 0)] := by decide
+
+example :
+    let s := run (init 2) [.requestStop, .postSentinels, .accept 1, .exec 0, .exec 1, .acceptorExit]
+    Final s = true ∧ unclosed s = [] ∧ s.closed = [0] ∧ s.opened = [] := by decide
+
+example :
+    let s := run (init 1) [.requestStop, .postSentinels, .exec 0, .enroll 0, .acceptorExit, .setFlag]
+    Final s = true ∧ s.inShutdown = true ∧ unanswered s = [] ∧ s.results = [0] ∧ s.failed = [0] ∧ s.closed = [0] := by decide
+
+-- non-vacuity: connections handed over, served, closed by peers and by shutdown; an enrolment that is answered
 example :
     let s := run (init 2) [.accept 0, .accept 1, .exec 0, .exec 1, .peerClose 0 0, .accept 1, .exec 1,
                            .requestStop, .postSentinels, .acceptorExit, .exec 0, .exec 1]
     Final s = true ∧ pending s = [] ∧ s.closed = [0, 1, 2] ∧ s.opened = [(0, 0), (1, 1), (2, 1)] := by decide
 
--- non-vacuity: an enrolment that is answered
 example :
     let s := run (init 1) [.enroll 0, .exec 0, .requestStop, .postSentinels, .acceptorExit, .exec 0, .setFlag]
-    Final s = true ∧ s.results = [0] ∧ unanswered s = [] ∧ s.closed = [0] := by decide
+    Final s = true ∧ s.results = [0] ∧ s.failed = [] ∧ unanswered s = [] ∧ s.closed = [0] := by decide
 
 end Gnet.Props.Handover
